@@ -146,7 +146,7 @@ CLAIMS.update({
 PENDING = {}
 
 def main():
-    hooks_commits = ["58af5e8", "d283225"]
+    hooks_commits = ["58af5e8", "d283225", "06f7b02"]
     checks = []
     for pid in sorted(CLAIMS):
         c = CLAIMS[pid]
